@@ -877,14 +877,15 @@ def audit_return_forms(ctx):
         for r in ast.walk(fi.node):
             if not isinstance(r, ast.Return) or getattr(r, "lineno", 0) <= end:
                 continue
-            if any(p(r) for p in preds) or _plain_return(r.value, fi, lk):
+            rexpr = returned_expr(fi, r)
+            if any(p(r) for p in preds) or _plain_return(rexpr, fi, lk):
                 continue
             # a list the pass fills by append, returned with a constant slice or reversed: elements the rules have just shown to
             # belong to the result are dropped, or their order is inverted, on the way out
             filled = {c.func.value.id for c in ast.walk(loop) if isinstance(c, ast.Call) and isinstance(c.func, ast.Attribute) and c.func.attr in ("append", "extend")
                       and isinstance(c.func.value, ast.Name)}
             cut = None
-            for sub in ast.walk(r.value):
+            for sub in ast.walk(rexpr):
                 if isinstance(sub, ast.Subscript) and isinstance(sub.value, ast.Name) and sub.value.id in filled and isinstance(sub.slice, ast.Slice):
                     parts = [sub.slice.lower, sub.slice.upper, sub.slice.step]
 
@@ -939,3 +940,20 @@ def audit_loop_exits(res):
         walk(NORMAL_LOOPS.get(q, loop).body, 0)     # (guard-clause breaks folded into the loop test are part of the test the rules read)
         for n in found:
             res.error(f"{q}: the main loop can be left early by `{ast.unparse(n)[:40]}` (line {n.lineno}), which no rule of this property has judged - shape not recognised")
+
+
+def returned_expr(fi, r: ast.Return):
+    """The expression a return statement hands over, read through a temporary assigned just in front of it
+    (`_rv = E; return _rv` returns E)."""
+    e = r.value
+    if not isinstance(e, ast.Name):
+        return e
+    for blk in ast.walk(fi.node):
+        for f_ in ("body", "orelse", "finalbody"):
+            stmts = getattr(blk, f_, None)
+            if isinstance(stmts, list) and r in stmts:
+                k = stmts.index(r)
+                if k > 0 and isinstance(stmts[k - 1], ast.Assign) and len(stmts[k - 1].targets) == 1 and isinstance(stmts[k - 1].targets[0], ast.Name) \
+                        and stmts[k - 1].targets[0].id == e.id:
+                    return stmts[k - 1].value
+    return e
